@@ -1003,6 +1003,20 @@ func (dsc *dataStoreCommand) randomKey() (output respValue) {
 	return
 }
 
+// number of keys that have not expired
+func (dsc *dataStoreCommand) dbSize() (count int) {
+	dsc.lock()
+	defer dsc.unlock()
+
+	for i := dsc.ds.data.createIterator(); i.next(); {
+		sv := i.value.(*storeKey)
+		if !sv.isExpiredUnlocked() {
+			count++
+		}
+	}
+	return
+}
+
 func (dsc *dataStoreCommand) dictScanUnlocked(data *redisDict, cursor uint32, pattern string,
 	count int,
 	isMatch func(item *redisDictItem) any) (output respValue) {
